@@ -386,6 +386,32 @@ def _labels(da, dim):
     return sorted(map(str, itertools.product(*[da.indexes[d].tolist() for d in dims])))
 
 
+def _signed_perm_explains(res, own):
+    """True when every field of res equals the corresponding field of own up to a permutation and sign (phase) of modes"""
+    try:
+        for a_, b_ in zip(res, own):
+            A = np.asarray(a_.transpose(..., "mode").values)
+            B = np.asarray(b_.transpose(*a_.transpose(..., "mode").dims).values)
+            A, B = A.reshape(-1, A.shape[-1]), B.reshape(-1, B.shape[-1])
+            if A.shape != B.shape:
+                return False
+            for j in range(A.shape[1]):
+                ok = False
+                for k in range(B.shape[1]):
+                    den = np.vdot(B[:, k], B[:, k])
+                    if abs(den) < 1e-300:
+                        continue
+                    c = np.vdot(B[:, k], A[:, j]) / den
+                    if abs(abs(c) - 1) < 1e-6 and np.abs(A[:, j] - c * B[:, k]).max() <= 1e-6 * max(np.abs(A).max(), 1e-300):
+                        ok = True
+                        break
+                if not ok:
+                    return False
+        return True
+    except Exception:  # noqa
+        return False
+
+
 class Replayer:
     """Executes one path of spec transitions on real objects."""
 
@@ -599,8 +625,14 @@ class Replayer:
                    f"rotator.transform({d}) differs from a fresh rotator's")
         if d == a["base"]:
             own = fam.scores(self.rot)
-            self.M(same(res, own, what="rot transform vs scores"), "C04", "C04_TrainingTransformIsScores",
+            why = same(res, own, what="rot transform vs scores")
+            self.M(why, "C04", "C04_TrainingTransformIsScores",
                    f"rotator.transform(training data {d}) differs from rotator.scores() (order {a['order']})")
+            if why and _signed_perm_explains(res, own):
+                # the projections are the stored scores with modes exchanged and/or re-signed: the order and sign
+                # bookkeeping of the rotator (C11), not the projection itself
+                self.M(why, "C11", "C11_TransformOrderMatchesStore",
+                       f"rotator.transform(training data {d}) returns the stored scores with modes exchanged or re-signed (order {a['order']})")
 
     def check_boot(self, a):
         from xeofs import _verif
